@@ -371,3 +371,6 @@ HYPOTHESES = ['is_field F: field_theory of the dictionary operations with Leibni
               'prim_root F k omega: omega^(2^(k-1)) = -1, i.e. omega is a primitive 2^k-th root of unity',
               'C07_ifft_fft_id: gen*gen_inv = 1, offset*offset_inv = 1, 2^k*size_inv = 1 (what the constructor stores; implies odd characteristic)',
               'C07_get_root_of_unity_pow2: the configured TWO_ADIC_ROOT_OF_UNITY has exact order 2^TWO_ADICITY (configuration fact, C16)']
+
+# pinned theorems that instantiate this package's abstract-field theorems at the executed ZpOps dictionary
+EXTRA_PROP_FILES = ['Bridge']
